@@ -121,3 +121,21 @@ def _date_offset_sites():
     if bad:
         return False, "date-offset-sites: day-count conversion not in the contracted form at " + "; ".join(bad[:5]), total
     return True, f"{total} conversion sites, all `num_days_from_ce() - EXCEL_DATE_BASE`", total
+
+
+@scan("selection-writers")
+def _selection_writers():
+    """C28: every assignment to the selected sheet / cell / range in base/src sits in a function whose write step is under
+    contract in unit uisel (or, for the engine constructors, creates the default on-grid view), and nothing assigns view_id."""
+    UI, CM, NE, UR = "base/src/user_model/ui.rs", "base/src/user_model/common.rs", "base/src/new_empty.rs", "base/src/user_model/undo_redo.rs"
+    allowed = {(UI, f) for f in ["set_selected_sheet", "set_selected_cell", "set_selected_range", "on_arrow_right", "on_arrow_left",
+                                 "on_arrow_up", "on_arrow_down", "on_page_down", "on_page_up", "on_area_selecting",
+                                 "on_navigate_to_edge_in_direction"]}
+    allowed |= {(CM, f) for f in ["delete_sheet", "hide_sheet", "on_paste_styles"]}
+    ok1, d1, n1 = expect_sites("selection-writers", r"\bview\s*\.\s*(row|column|range|sheet)\s*=[^=]", allowed)
+    ok2, d2, n2 = expect_sites("view-id-writers", r"\bview_id\s*=[^=]|&mut\s+\w+(\.\w+)*\.view_id", set())
+    if not ok1:
+        return False, d1, n1 + n2
+    if not ok2:
+        return False, d2, n1 + n2
+    return True, f"{n1} selection writes, all in functions under contract; view_id is never reassigned", n1 + n2
